@@ -590,6 +590,167 @@ Definition sched_matches (v : variant) (auto_app : bool) (evs : list (list event
   | None => false
   end.
 
+(* ------------------------------ schedules with unresolved internal choices *)
+(* The properties do not decide every internal step.  Three choices are left
+   open by them and are resolved by the Go runtime or by an implementation
+   detail; the tie must accept each resolution:
+     R1  a Submit whose select finds both its response and a closed context
+         (its own or the connection's) ready may leave through either case;
+     R2  a call that is about to hand its frame to the transport while another
+         caller's transport Write is still open, or while another caller is
+         about to do the same, may do so at once or later (a write lock around
+         Send is allowed, and it need not be fair);
+     R3  Watch handing a PDU to a receiving application after Done() closed
+         may complete the hand-over or give it up.
+   [settle_nd] runs the internal events like [settle] but returns every
+   quiescent state these choices lead to, each with the trace taken; the
+   snapshot the harness took after the forced group selects among them.  It
+   only ever calls [step]: every candidate is an ordinary run of the LTS
+   (Proofs/ConnSched.v, [sched_nd_sound]). *)
+Definition racing (s : state) (c : nat) : bool :=
+  match c_pc (callers s c), c_mail (callers s c) with
+  | PWaiting, Some _ => done s || c_ctx (callers s c)
+  | _, _ => false
+  end.
+(* another caller's transport Write is open, or another caller is about to hand
+   its frame to the transport as well (which of two waiting senders goes first
+   is not decided by any property) *)
+Definition write_open (v : variant) (s : state) (c : nat) : bool :=
+  existsb (fun d => negb (Nat.eqb d c) &&
+                    match c_pc (callers s d) with PWriting | PStarted | PRegistered => true | _ => false end)
+          (started s).
+
+Definition internal_events_skip (auto_app : bool) (skip : list nat) (s : state) : list event :=
+  [WatchLoop; WatchStep] ++ (if auto_app then [AppRecv] else [WatchSeeDone]) ++
+  flat_map (fun c => (if existsb (Nat.eqb c) skip then [] else [WireWrite c; SendFail c]) ++
+                     [Register c; WakeResp c; WakeDone c; WakeCtx c; Unregister c; CloseFinish c]) (started s)
+  ++ [KaNext; KaSeeDone].
+
+Definition cand := (state * list event)%type.
+
+Definition alt_step (v : variant) (s : state) (tr : list event) (evs : list event) : list cand :=
+  match first_enabled v s evs with Some (e, s') => [(s', tr ++ [e])] | None => [] end.
+
+(* [lazy]: the wait is an intermediate one inside a forced group (the next forced
+   event is not yet enabled): further events of the same group may still bring
+   competitors, so every hand-over to the transport may be left for the wait
+   that ends the group. *)
+Fixpoint settle_nd (v : variant) (auto_app : bool) (lazy : bool) (target : list Z) (fuel : nat) (skip : list nat) (p : cand) : list cand :=
+  match fuel with
+  | O => []
+  | S f =>
+    let '(s, tr) := p in
+    match first_enabled v s (internal_events_skip auto_app skip s) with
+    | None => [p]
+    | Some (e, s') =>
+      match e with
+      | WireWrite c =>
+        (* R2, guided by what the transport showed after this forced group ([target]: whose frames are on
+           the wire, in order): the call hands its frame over now iff it is the next one there; otherwise it waits,
+           if waiting is allowed (no enumeration of the subsets of waiting senders) *)
+        let later := if lazy || write_open v s c then settle_nd v auto_app lazy target f (c :: skip) p else [] in
+        match nth_error target (List.length (wire s)) with
+        | Some id => if (id =? Z.of_nat c)%Z then settle_nd v auto_app lazy target f skip (s', tr ++ [e]) else later
+        | None => later
+        end
+      | _ =>
+        settle_nd v auto_app lazy target f skip (s', tr ++ [e]) ++
+        match e with
+        | WakeResp c =>
+          if racing s c then flat_map (settle_nd v auto_app lazy target f skip) (alt_step v s tr [WakeDone c; WakeCtx c]) else []
+        | SendFail c =>     (* (a Send that fails may find that out only once it has the transport) *)
+          if lazy || write_open v s c then settle_nd v auto_app lazy target f (c :: skip) p else []
+        | AppRecv =>
+          if done s then flat_map (settle_nd v auto_app lazy target f skip) (alt_step v s tr [WatchSeeDone]) else []
+        | _ => []
+        end
+      end
+    end
+  end.
+
+(* Different resolutions often meet in the same state; candidates are compared
+   on everything [step] reads except the pending table (which the callers'
+   program counters determine) and one of each kind is kept.  Dropping a
+   candidate can only make [sched_admits] false, never true. *)
+Definition beq_opt_pdu (a b : option pdu) : bool :=
+  match a, b with Some x, Some y => beq_pdu x y | None, None => true | _, _ => false end.
+Definition beq_cpc (a b : cpc) : bool :=
+  match a, b with
+  | PNone, PNone | PStarted, PStarted | PRegistered, PRegistered | PWriting, PWriting
+  | PWritten, PWritten | PWaiting, PWaiting => true
+  | PLeaving x, PLeaving y | PClosing x, PClosing y | PReturned x, PReturned y => beq_result x y
+  | _, _ => false
+  end.
+Definition beq_wpc (a b : wpc_t) : bool :=
+  match a, b with
+  | WTop, WTop | WReading, WReading | WStuck, WStuck | WExited, WExited | WPanicked, WPanicked => true
+  | WSending p, WSending q => beq_pdu p q
+  | _, _ => false
+  end.
+Definition beq_kpc (a b : kpc) : bool :=
+  match a, b with
+  | KOff, KOff | KReady, KReady | KNeedClose, KNeedClose | KWaitTick, KWaitTick | KExited, KExited => true
+  | KInPing c, KInPing d | KInClose c, KInClose d => Nat.eqb c d
+  | _, _ => false
+  end.
+Definition wire_ids (s : state) : list Z :=
+  map (fun w => match w with WCall c _ => Z.of_nat c | WNack q => (-1 - Z.abs q)%Z end) (wire s).
+Definition same_state (a b : state) : bool :=
+  beq_list Nat.eqb (started a) (started b) &&
+  forallb (fun c => beq_cpc (c_pc (callers a c)) (c_pc (callers b c)) &&
+                    beq_opt_pdu (c_mail (callers a c)) (c_mail (callers b c)) &&
+                    Bool.eqb (c_ctx (callers a c)) (c_ctx (callers b c))) (started a) &&
+  beq_list Z.eqb (wire_ids a) (wire_ids b) &&
+  (N.of_nat (List.length (inbound a)) =? N.of_nat (List.length (inbound b))) &&
+  beq_list beq_pdu (app a) (app b) && beq_wpc (wpc a) (wpc b) && Bool.eqb (done a) (done b) &&
+  Bool.eqb (in_end a) (in_end b) && Bool.eqb (queue_closed a) (queue_closed b) &&
+  Bool.eqb (transport_closed a) (transport_closed b) && beq_kpc (ka a) (ka b) &&
+  Bool.eqb (ticker_stopped a) (ticker_stopped b).
+Definition dedup (cs : list cand) : list cand :=
+  fold_left (fun acc p => if existsb (fun q => same_state (fst q) (fst p)) acc then acc else acc ++ [p]) cs [].
+
+Fixpoint run_group_nd (v : variant) (auto_app : bool) (target : list Z) (evs : list event) (p : cand) : list cand :=
+  match evs with
+  | [] => settle_nd v auto_app false target settle_fuel [] p
+  | e :: r =>
+    match step v (fst p) e with
+    | Some s1 => run_group_nd v auto_app target r (s1, snd p ++ [e])
+    | None =>
+      flat_map (fun p2 => match step v (fst p2) e with
+                          | Some s3 => run_group_nd v auto_app target r (s3, snd p2 ++ [e])
+                          | None => []
+                          end) (dedup (settle_nd v auto_app true target settle_fuel [] p))
+    end
+  end.
+
+(* the snapshot compared by the search also says WHOSE frames have reached the
+   transport so far, in order (the octets on the wire are an observable of C14;
+   without it a wrong guess about which waiting sender went first would survive
+   until the final observation and multiply) *)
+Definition snap2 := (snap * list Z)%type.
+Definition snapshot2 (s : state) : snap2 := (snapshot s, wire_ids s).
+Definition beq_snap2 (a b : snap2) : bool := beq_snap (fst a) (fst b) && beq_list Z.eqb (snd a) (snd b).
+
+(* candidates that showed every snapshot the harness took *)
+Fixpoint run_sched_nd (v : variant) (auto_app : bool) (gs : list (list event)) (snaps : list snap2) (cs : list cand) : list cand :=
+  match gs, snaps with
+  | [], [] => cs
+  | g :: gr, sn :: sr =>
+    run_sched_nd v auto_app gr sr
+      (dedup (filter (fun p => beq_snap2 (snapshot2 (fst p)) sn) (flat_map (run_group_nd v auto_app (snd sn) g) cs)))
+  | _, _ => []
+  end.
+
+(* the run of the model that shows the snapshots and the final observation, if there is one *)
+Definition sched_nd (v : variant) (auto_app : bool) (gs : list (list event)) (snaps : list snap2) (final : obs) : option cand :=
+  find (fun p => beq_obs (observe (fst p)) final)
+       (run_sched_nd v auto_app gs snaps (settle_nd v auto_app false [] settle_fuel [] (init, []))).
+
+(* the generated cases: what the implementation showed after every forced event
+   and at the end is what ONE of the runs the model admits for these forced events shows *)
+Definition sched_admits (v : variant) (auto_app : bool) (evs : list (list event)) (snaps : list snap2) (final : obs) : bool :=
+  match sched_nd v auto_app evs snaps final with Some _ => true | None => false end.
+
 (* ------------------------------------------- the peer and callers of C05 *)
 (* Executable form of the hypotheses of C05 on the next event (see env_ok in
    Proofs/ConnC05.v, which this implies on reachable states): Submit callers
@@ -621,5 +782,11 @@ Fixpoint erunb (v : variant) (s : state) (t : list event) : option state :=
 Definition sched_env_ok (v : variant) (auto_app : bool) (gs : list (list event)) : bool :=
   match sched v auto_app gs with
   | Some (_, _, tr) => match erunb v init tr with Some _ => true | None => false end
+  | None => false
+  end.
+(* the same for the run [sched_nd] selects *)
+Definition sched_env_admits (v : variant) (auto_app : bool) (gs : list (list event)) (snaps : list snap2) (final : obs) : bool :=
+  match sched_nd v auto_app gs snaps final with
+  | Some (_, tr) => match erunb v init tr with Some _ => true | None => false end
   | None => false
   end.
